@@ -45,7 +45,9 @@ def main():
     for p in pats:
         text = open(p).read()
         files = re.findall(r"^\+\+\+ b/(\S+)", text, flags=re.M)
-        if not any(f in ("src/chunk.rs", "src/body.rs", "src/util.rs", "src/client/flow.rs", "src/client/amended.rs", "src/client/call.rs", "src/ext.rs") for f in files):
+        if not any(f in ("src/chunk.rs", "src/body.rs", "src/util.rs", "src/client/flow.rs", "src/client/amended.rs", "src/client/call.rs", "src/ext.rs", "src/parser.rs") for f in files):
+            continue
+        if os.environ.get("T2_ONLY_FILE") and os.environ["T2_ONLY_FILE"] not in files:
             continue
         name = os.path.basename(os.path.dirname(p))
         if which not in ("harmless", "seeded", "all") and os.path.isdir(which):
@@ -66,7 +68,7 @@ def main():
         results[name] = res
         print(name, "translated=%d" % res["translated"], "fallbacks=%s" % ",".join(res["fallbacks"]), "proofs=%s" % ("ok" if res["proofs_ok"] else "FAIL " + " ".join(res["failing"])), flush=True)
     shutil.rmtree(SCR, ignore_errors=True)
-    json.dump(results, open(os.path.join(ROOT, "coverage", "translator2_eval_%s.json" % os.path.basename(which.rstrip("/"))), "w"), indent=1, sort_keys=True)
+    json.dump(results, open(os.path.join(ROOT, "coverage", "translator2_eval_%s%s.json" % (os.path.basename(which.rstrip("/")), "_" + os.path.basename(os.environ["T2_ONLY_FILE"]).replace(".", "_") if os.environ.get("T2_ONLY_FILE") else "")), "w"), indent=1, sort_keys=True)
 
 
 if __name__ == "__main__":
